@@ -1226,8 +1226,14 @@ def _last_field(place):
 def _ref_target(fn, n, depth=0):
     """the place a reference-typed local points to: follows copies, moves and closure-environment slots back to the
     `&mut place` / `&place` statement (None when that is not a single statement)"""
+    def same_defs(n_):
+        # jump threading copies blocks: several textually identical definitions of a temporary are one definition
+        ds_ = fn.whole_defs(n_)
+        if len(ds_) > 1 and all(d[0] == "stmt" for d in ds_) and len(fn.defs().get(n_, [])) == len(ds_) and all(d[1] == ds_[0][1] for d in ds_[1:]):
+            return ds_[:1]
+        return ds_
     for _ in range(10):
-        ds = fn.whole_defs(n)
+        ds = same_defs(n)
         if len(ds) != 1 or ds[0][0] != "stmt":
             return None
         rv = ds[0][1]
@@ -1250,7 +1256,7 @@ def _ref_target(fn, n, depth=0):
             # a captured reference: slot idx of the closure aggregate this environment was built as
             env = src["local"]
             for _ in range(6):
-                de = fn.whole_defs(env)
+                de = same_defs(env)
                 if len(de) != 1 or de[0][0] != "stmt":
                     return None
                 rve = de[0][1]
@@ -1299,6 +1305,50 @@ def field_mut_borrows(fn, adt, field):
             if rv["k"] == "ref" and rv.get("mut") and _proj_has_field(rv["place"], adt, field):
                 out.append((bi, si, st))
     return out
+
+
+def borrow_escapes(fn, n, depth=0, seen=None):
+    """does the reference held in local n reach code that is not visible here (a call argument, a return value, a
+    store into memory)?  Copies, re-borrows, captures by a closure whose body was inlined and reads through the
+    reference stay inside the function: every store through them is found by field_assignments."""
+    seen = seen if seen is not None else set()
+    if n in seen:
+        return False
+    seen.add(n)
+    if depth > 12 or n == 0:
+        return True
+    for bi, si, what in uses_of_local(fn, n):
+        if si == "term":
+            if what["k"] == "call":
+                return True
+            continue
+        st = what
+        rv = st["rv"]
+        dst = st["place"]
+        if dst["proj"]:
+            return True                                   # stored into memory
+        if rv["k"] in ("use", "ref", "cast"):
+            src = op_place(rv["op"]) if rv["k"] == "use" else (rv["place"] if rv["k"] == "ref" else op_place(rv["a"]))
+            if src is not None and src["local"] == n:
+                nd = [e for e in src["proj"] if e["k"] != "deref"]
+                if any(e["k"] == "deref" for e in src["proj"]) and rv["k"] == "use" and not nd:
+                    # a read through the reference: the value, not the reference (for the integer fields this is used for)
+                    if fn.local_ty(dst["local"]).startswith("&"):
+                        if borrow_escapes(fn, dst["local"], depth + 1, seen):
+                            return True
+                    continue
+                if borrow_escapes(fn, dst["local"], depth + 1, seen):
+                    return True
+                continue
+            return True
+        if rv["k"] == "aggregate" and rv["kind"].get("agg") in ("closure", "tuple"):
+            if borrow_escapes(fn, dst["local"], depth + 1, seen):
+                return True
+            continue
+        if rv["k"] == "discr":
+            continue
+        return True
+    return False
 
 
 def field_partial_writes(fn, adt, field):
